@@ -1,16 +1,167 @@
 import Grass.Color
 import Grass.Generated.CssColorsRef
+import GrassProofs.Lemmas.ColorNum
+import GrassProofs.Lemmas.ColorConv
 /-
   C15 — Colours keep channels in range and agree across spellings and colour spaces.
+
+  Everything is about the model of the code as it stands in /repo (`mix false`, `lightness false`);
+  the variants found on the pinned tree (`asFound = true`: D14 rounded `lightness()`, D21 unrounded
+  `mix()`) appear only in the `C15_asFound_…` witnesses at the end.
+
+  P̂ (Grass/Color.lean): `Color.inRange` (integer channels in [0,255], alpha in [0,1]), `Color.wf` (the
+  invariant that implies it and is preserved by every function), `sameColor` (equal under grass's
+  `==` and printed identically in compressed mode).
 -/
 namespace Grass.Color
 open Grass.Generated
 
-/-- grass's `name_to_rgba` is the CSS table: every entry of one is an entry of the other. -/
+/-! ## 1. The named-colour table is the CSS table -/
+
+/-- grass's `name_to_rgba` (regenerated from color/name.rs on every run) and the committed CSS
+    reference table contain exactly the same (name, rgba) entries, and no name occurs twice. -/
 theorem C15_named_table_eq_css :
     nameToRgba.all (fun e => cssColorsRef.contains e) = true ∧
     cssColorsRef.all (fun e => nameToRgba.contains e) = true ∧
-    nameToRgba.length = cssColorsRef.length := by
+    nameToRgba.length = cssColorsRef.length ∧
+    (nameToRgba.map (·.1)).eraseDups.length = nameToRgba.length := by
   decide +kernel
+
+example : lookupName [114, 101, 100] = some (255, 0, 0, 255) := by decide +kernel  -- "red"
+
+/-- The reverse table used by the serializer is consistent with the forward table: every
+    `rgb ↦ name` entry names a colour whose value is that rgb (opaque), and every opaque named
+    colour's rgb has a reverse entry — so a colour written by name is printed by a name (possibly the
+    other of a synonym pair such as aqua/cyan, gray/grey, fuchsia/magenta) of the same colour. -/
+theorem C15_named_reverse_consistent :
+    rgbaToName.all (fun e => lookupName e.2 == some (e.1.1, e.1.2.1, e.1.2.2, 255)) = true ∧
+    nameToRgba.all (fun e => e.2.2.2.2 != 255 ||
+      match lookupRgb (e.2.1, e.2.2.1, e.2.2.2.1) with
+      | some n => lookupName n == some e.2
+      | none => false) = true := by
+  decide +kernel
+
+example : lookupRgb (0, 255, 255) = some [97, 113, 117, 97] := by decide +kernel  -- aqua (cyan is its synonym)
+
+/-! ## 2. Channels stay in range -/
+
+theorem wf_inRange {c : Color} (h : c.wf = true) : c.inRange = true := by
+  simp only [Color.wf, Bool.and_eq_true, Bool.or_eq_true, decide_eq_true_eq, beq_iff_eq] at h
+  obtain ⟨⟨⟨hr, hg⟩, hb⟩, ha⟩ := h
+  simp only [Color.inRange, Color.alpha, hr, hg, hb, Bool.and_eq_true, decide_eq_true_eq, true_and]
+  rcases ha with ⟨a0, a1⟩ | a255
+  · split <;> grind
+  · rw [a255]; decide +kernel
+
+theorem wf_alpha {c : Color} (h : c.wf = true) : 0 ≤ c.alpha ∧ c.alpha ≤ 1 := by
+  have := wf_inRange h
+  simp only [Color.inRange, Bool.and_eq_true, decide_eq_true_eq] at this
+  exact ⟨this.1.2, this.2⟩
+
+theorem wf_mk {r g b a : Rat} {h : Option Hsl} {f : Fmt} (hr : chanOk r = true) (hg : chanOk g = true)
+    (hb : chanOk b = true) (a0 : 0 ≤ a) (a1 : a ≤ 1) :
+    ({ r := r, g := g, b := b, a := a, hsl := h, fmt := f } : Color).wf = true := by
+  simp [Color.wf, hr, hg, hb, a0, a1]
+
+/-- `from_rgba` / `from_rgba_fn` with integer channels (every caller passes rounded channels). -/
+theorem fromRgba_wf {r g b : Rat} (a : Rat) (hr : isInt r = true) (hg : isInt g = true) (hb : isInt b = true) :
+    (fromRgba r g b a).wf = true ∧ (fromRgbaFn r g b a).wf = true := by
+  have ⟨a0, a1⟩ := clamp_bounds a 0 1 (by decide +kernel)
+  exact ⟨wf_mk (chanOk_clamp hr) (chanOk_clamp hg) (chanOk_clamp hb) a0 a1,
+         wf_mk (chanOk_clamp hr) (chanOk_clamp hg) (chanOk_clamp hb) a0 a1⟩
+
+/-- rgb()/rgba() with numeric arguments: whatever the arguments, a produced colour is in range. -/
+theorem C15_channels_in_range_rgb (r g b : Rat × String) (a : Option (Rat × String)) (c : Color)
+    (h : fnRgb r g b a = .ok c) : c.wf = true ∧ c.inRange = true := by
+  suffices c.wf = true from ⟨this, wf_inRange this⟩
+  unfold fnRgb at h
+  split at h
+  · split at h
+    · cases h; exact (fromRgba_wf _ (fuzzyRound_isInt _) (fuzzyRound_isInt _) (fuzzyRound_isInt _)).2
+    · split at h
+      · cases h; exact (fromRgba_wf _ (fuzzyRound_isInt _) (fuzzyRound_isInt _) (fuzzyRound_isInt _)).2
+      · cases h
+  all_goals cases h
+
+example : ∃ c, fnRgb (300, "") (-5, "") (255/2, "") (some (50, "pct")) = .ok c ∧ c.r = 255 ∧ c.g = 0 ∧ c.b = 128 ∧ c.a = 1/2 :=
+  ⟨_, by decide +kernel⟩
+
+theorem fromHsla_wf (hue sat light alpha : Rat) (a0 : 0 ≤ alpha) (a1 : alpha ≤ 1) :
+    (fromHsla hue sat light alpha).wf = true ∧ (fromHslaFn hue sat light alpha).wf = true := by
+  have ⟨h0, h1⟩ := sassMod_bounds hue
+  have hb := hslToRgbExact_bounds (hue := sassMod hue 360) (sat := sat) (light := light) h0 h1
+  unfold fromHslaFn fromHsla
+  generalize hslToRgbExact (sassMod hue 360) sat light = t at hb
+  obtain ⟨r, g, b⟩ := t
+  simp only [] at hb ⊢
+  obtain ⟨⟨r0, r1⟩, ⟨g0, g1⟩, ⟨b0, b1⟩⟩ := hb
+  exact ⟨wf_mk (chanOk_fuzzyRound r0 r1) (chanOk_fuzzyRound g0 g1) (chanOk_fuzzyRound b0 b1) a0 a1,
+         wf_mk (chanOk_fuzzyRound r0 r1) (chanOk_fuzzyRound g0 g1) (chanOk_fuzzyRound b0 b1) a0 a1⟩
+
+theorem pctOrUnitless_bounds {x : Rat} {u : String} {max v : Rat} (hm : 0 ≤ max)
+    (h : pctOrUnitless x u max = .ok v) : 0 ≤ v ∧ v ≤ max := by
+  unfold pctOrUnitless at h
+  split at h
+  · cases h; exact clamp_bounds _ _ _ hm
+  · split at h
+    · cases h; exact clamp_bounds _ _ _ hm
+    · cases h
+
+/-- hsl()/hsla() with numeric arguments — any hue, saturation and lightness, also far outside their
+    ranges: a produced colour is in range. -/
+theorem C15_channels_in_range_hsl (h s l : Rat × String) (a : Option (Rat × String)) (c : Color)
+    (hc : fnHsl h s l a = .ok c) : c.wf = true ∧ c.inRange = true := by
+  suffices c.wf = true from ⟨this, wf_inRange this⟩
+  unfold fnHsl at hc
+  split at hc
+  · cases hc
+  · simp only [] at hc
+    split at hc
+    · cases hc
+    · rename_i alpha ha
+      cases hc
+      have ⟨a0, a1⟩ := pctOrUnitless_bounds (by decide +kernel) ha
+      exact (fromHsla_wf _ _ _ _ a0 a1).2
+
+example : ∃ c, fnHsl (-30, "deg") (120, "pct") (50, "pct") none = .ok c ∧ c.r = 255 ∧ c.g = 0 ∧ c.b = 128 :=
+  ⟨_, by decide +kernel⟩
+
+theorem fromHwb_wf (hue white black alpha : Rat) (w0 : 0 ≤ white) (b0 : 0 ≤ black) :
+    (fromHwb hue white black alpha).wf = true := by
+  have hb := hwbToRgbExact_bounds (hue := hue) w0 b0
+  unfold fromHwb
+  generalize hwbToRgbExact hue white black = t at hb
+  obtain ⟨r, g, b⟩ := t
+  simp only [] at hb ⊢
+  obtain ⟨⟨r0, r1⟩, ⟨g0, g1⟩, ⟨b0', b1⟩⟩ := hb
+  have ⟨a0, a1⟩ := clamp_bounds alpha 0 1 (by decide +kernel)
+  exact wf_mk (chanOk_fuzzyRound r0 r1) (chanOk_fuzzyRound g0 g1) (chanOk_fuzzyRound b0' b1) a0 a1
+
+theorem assertBounds_ok {x lo hi : Rat} {u : Unit} (h : assertBounds x lo hi = .ok u) : lo ≤ x ∧ x ≤ hi := by
+  unfold assertBounds at h
+  split at h
+  · rename_i hx; exact ⟨hx.2, hx.1⟩
+  · cases h
+
+/-- color.hwb() with numeric arguments: a produced colour is in range. -/
+theorem C15_channels_in_range_hwb (h w b : Rat × String) (a : Option (Rat × String)) (c : Color)
+    (hc : fnHwb h w b a = .ok c) : c.wf = true ∧ c.inRange = true := by
+  suffices c.wf = true from ⟨this, wf_inRange this⟩
+  unfold fnHwb at hc
+  split at hc
+  · cases hc
+  · split at hc
+    · cases hc
+    · split at hc
+      · rename_i hw hb
+        simp only [] at hc
+        split at hc
+        · cases hc
+        · cases hc
+          exact fromHwb_wf _ _ _ _ (assertBounds_ok hw).1 (assertBounds_ok hb).1
+      all_goals cases hc
+
+example : ∃ c, fnHwb (120, "") (80, "pct") (60, "pct") none = .ok c ∧ c.r = 146 ∧ c.g = 146 ∧ c.b = 146 :=
+  ⟨_, by decide +kernel⟩
 
 end Grass.Color
